@@ -456,6 +456,14 @@ def check_C08(ctx, rep):
     sva = an.get(sv)
     svp = an.paths(sv)
     for (b, k_, v) in ret_defs(sva):
+        v = expand_calls(ctx, v)
+        if v[0] == 'phi':
+            # combinator form (map_or): the alternatives are the two cases
+            ones = [a for a in v[1] if is_const(a, 1)]
+            casts = [a for a in v[1] if a[0] == 'cast' and a[1] == 'FloatToInt' and is_call(a[3], 'Dist::sample') and contains(a, lambda y: isinstance(y, tuple) and y and y[0] == 'var' and y[2] == 'Some' and is_field(y[1], 'dist', 'Counter'))]
+            rep.ob('C08.R2', sv, 'no-dist-means-one', len(ones) == 1 and len(v[1]) == 2, 'returns %s' % shape(v))
+            rep.ob('C08.R2', sv, 'dist-value-saturating-cast', len(casts) == 1, 'returns %s' % shape(v))
+            continue
         for S in svp.at(b, k_):
             none = any(f[0] == 'variant' and f[2] == 'None' for f in S)
             if none:
@@ -642,8 +650,8 @@ def check_C09(ctx, rep):
                 continue
             for S in pf.on_edge(x, h):
                 called = any(f[0] == 'called' and f[3] == fr[2] for f in S)
-                excl = has_cmp(S, 'eq', lambda l: True, lambda r: True, True) and any(
-                    f[0] == 'cmp' and f[1] == 'eq' and f[5] is True and (strip_sites(mi) in (f[2], f[3])) for f in S)
+                smi = strip_sites(mi)
+                excl = any(f[0] == 'cmp' and f[1] == 'eq' and f[5] is True and (contains(f[2], lambda x: x == smi) or contains(f[3], lambda x: x == smi)) for f in S)
                 if not (called or excl):
                     ok_iter = False
                     wit = S
@@ -658,8 +666,9 @@ def check_C09(ctx, rep):
         okx = True
         for S in st:
             for f in S:
-                if f[0] == 'cmp' and f[1] == 'eq' and strip_sites(mi) in (f[2], f[3]):
-                    other = f[3] if f[2] == strip_sites(mi) else f[2]
+                smi = strip_sites(mi)
+                if f[0] == 'cmp' and f[1] == 'eq' and (contains(f[2], lambda x: x == smi) or contains(f[3], lambda x: x == smi)):
+                    other = f[3] if contains(f[2], lambda x: x == smi) else f[2]
                     good = contains(other, lambda x: isinstance(x, tuple) and x and x[0] == 'var' and x[2] == 'AllExcept') and contains(other, lambda x: is_call(x, 'Option::<T>::take'))
                     okx = okx and good
         rep.ob('C09.R3', te, 'excluded-is-AllExcept-payload-of-taken-signal', okx, '')
@@ -685,6 +694,45 @@ def check_C09(ctx, rep):
 
 STEP_FNS = ('transition', 'update_counter', 'schedule_action', 'decrement_limit', 'below_action_limits', 'below_limit_blocking', 'below_limit_padding')
 PER_MACHINE_VECS = ('runtime', 'actions', 'counter_zeroed_once', 'machines')
+
+
+def broadcast_helper_ok(ctx, helper, ei):
+    """helper(self, .., event@ei, ..) calls transition(mi, event) for every mi in 0..runtime.len() on every path"""
+    prog, an = ctx.prog, ctx.an
+    fa = an.get(helper)
+    loops = fa.cfg.loops()
+    tc = [(b, args) for (b, f, args, t) in calls(fa) if callee_str(f).endswith('Framework::<M, R, T>::transition')]
+    if len(tc) != 1:
+        return False
+    cb, cargs = tc[0]
+    if cargs[0] != ('param', 1) or cargs[2] != ('param', ei) or not is_range_loop_var(fa, cargs[1]):
+        return False
+    hs = [h for h, body in loops.items() if cb in body]
+    if len(hs) != 1:
+        return False
+    h = hs[0]
+    body = loops[h]
+    rng = False
+    for (site, v2, flds, ln) in aggregates(fa, 'ops::Range') + aggregates(fa, 'range::Range'):
+        if fa.cfg.dominates(site[0], cb) and is_const(flds.get('start'), 0) and is_call(flds.get('end'), 'len') and \
+                contains(flds.get('end'), lambda x: isinstance(x, tuple) and x and x[0] == 'fld' and x[3] == 'runtime'):
+            rng = True
+    if not rng:
+        return False
+    lo, hi = min_max_on_paths(fa, 0, {h}, fa.cfg.reachable_from(0))
+    if lo < 1:
+        return False
+    pf = an.paths(helper, history=True, record_calls=lambda f: callee_str(f).endswith('Framework::<M, R, T>::transition'), tag='tr')
+    for (x, lab) in fa.cfg.pred[h]:
+        if x in body:
+            for S in pf.on_edge(x, h):
+                if not any(f[0] == 'called' and f[3] == cb for f in S):
+                    return False
+    for x in body:
+        for (y, l) in fa.cfg.succ[x]:
+            if y not in body and not (fa.blocks[y]['t']['k'] == 'unreachable' or (fa.blocks[x]['t']['k'] == 'switch' and any(f[0] == 'variant' and f[2] == 'None' for f in pf.edge_facts(x, l)))):
+                return False
+    return True
 
 
 def check_C10(ctx, rep):
@@ -794,6 +842,21 @@ def check_C10(ctx, rep):
         tcalls = [(b, args) for (b, f, args, t) in calls(fa) if b in region and callee_str(f).endswith('Framework::<M, R, T>::transition')
                   and args[2][0] == 'agg' and args[2][2] == var and fa.cfg.dominates(head, b)]
         broadcast = (not has_id) or var == 'BlockingBegin'
+        if broadcast and not tcalls:
+            # the loop may live in a private helper: helper(self, Event::X) that delivers its event argument to every machine
+            hcalls = [(b, f, args) for (b, f, args, t) in calls(fa) if b in region and fa.cfg.dominates(head, b) and f.get('crate') == FW
+                      and any(a[0] == 'agg' and a[1].endswith('event::Event') and a[2] == var for a in args)]
+            okh = len(hcalls) == 1
+            if okh:
+                hb, hf, hargs = hcalls[0]
+                helper = prog.fns.get(callee_key(hf))
+                ei = [i for i, a in enumerate(hargs) if a[0] == 'agg' and a[2] == var][0] + 1
+                okh = helper is not None and hargs[0] == ('param', 1) and broadcast_helper_ok(ctx, helper, ei)
+                lo, hi = min_max_on_paths(fa, head, {hb}, region)
+                okh = okh and lo >= 1
+            rep.ob('C10.R3', pe_fn, 'arm:%s:delivered-through-broadcast-helper' % var, okh,
+                   'the arm delivers Event::%s to every machine through a private helper' % var)
+            continue
         rep.ob('C10.R3', pe_fn, 'arm:%s:one-transition-site' % var, len(tcalls) == 1, 'transition(.., Event::%s) sites in the arm: %d' % (var, len(tcalls)))
         if len(tcalls) != 1:
             continue
